@@ -147,13 +147,13 @@ class LRBmc(Harness):
           'reads inside the property\'s domain is accepted by the LR automaton with the same reverse-Polish output'
     functions = ('grammarparser.parser.Parser.precedence', 'grammarparser.parser.FormulaParser (all productions, via ply.yacc tables)',
                  'grammarparser.parser_FormulaParser_parsetab')
-    bounds = 'token sequences of length 1..5 (quick) / 1..7 (thorough) over {operand, + - * / &, six comparisons, ( )}, prefix minus ' \
+    bounds = 'token sequences of length 1..6 (quick) / 1..8 (thorough) over {operand, + - * / &, six comparisons, ( )}, prefix minus ' \
              'included; domain: at most one comparison per parenthesis-free region, & not mixed with + - * / in one region'
     outside = ('sequences longer than the bound', 'operand kinds other than an integer literal (covered by C04.trees)')
     case_timeout_s = {'quick': 280, 'thorough': 3000}
 
     def cases(self, tier):
-        return [{'N': n} for n in range(1, 6 if tier == 'quick' else 8)]
+        return [{'N': n} for n in range(1, 7 if tier == 'quick' else 9)]
 
     # replay side: one concrete token sequence ------------------------------------------------
     def run(self, env, inp, p):
